@@ -3,8 +3,9 @@ SPECIFICATION Spec
 CONSTANTS
   MaxLen = 2
   Counts = {1, 2}
-  Kinds = {"exit1", "empty", "malformed", "failmsg", "ok", "drop", "extra"}
+  Kinds = {"exit1", "empty", "malformed", "failmsg", "failobj", "ok", "drop", "extra"}
   Variants = {"ff"}
+  Layouts = {"perhook"}
   Reach = {TRUE, FALSE}
   FixFailMsg = FALSE
   FixCount = TRUE
